@@ -1,11 +1,11 @@
 """C09 Kafka batches: gap-free offsets, commit after processing (structural clauses of code the suite never runs)"""
-from ..rules import kafka, lifecycle, holds, flow
+from ..rules import kafka, lifecycle, holds, flow, failure
 from .common import declare
 
 RULES = ['AUTOCOMMIT-OFF', 'COMMIT-ONLY-VIA-REF', 'TUPLE-LAYOUT', 'OFFSET-ALGEBRA', 'SEED-FROM-COMMITTED', 'READ-RANGE',
-         'STOP-CHECK', 'SINGLE-FLIGHT', 'PROPAGATE', 'NO-REL-ON-FAIL', 'EMIT-BALANCE']
+         'STOP-CHECK', 'SINGLE-FLIGHT', 'PROPAGATE', 'NO-REL-ON-FAIL', 'EMIT-BALANCE', 'FINALLY-NO-JUMP']
 FLOORS = {'AUTOCOMMIT-OFF': 3, 'COMMIT-ONLY-VIA-REF': 3, 'TUPLE-LAYOUT': 4, 'OFFSET-ALGEBRA': 5, 'SEED-FROM-COMMITTED': 2,
-          'READ-RANGE': 5, 'STOP-CHECK': 1, 'PROPAGATE': 1}
+          'READ-RANGE': 5, 'STOP-CHECK': 1, 'PROPAGATE': 1, 'FINALLY-NO-JUMP': 1}
 
 META = {
     'level': "Static analysis of FromKafkaBatched and get_message_batch, which have zero executed coverage in the suite: auto-commit "
@@ -15,7 +15,7 @@ META = {
              "first = max(cursor, low), high only watermark or clamp, strict guard, last = high-1, cursor <- high, commit = last+1 "
              "(OFFSET-ALGEBRA: contiguous, non-overlapping, bounded ranges); positions seeded from committed() on every path into "
              "the poll loop (SEED-FROM-COMMITTED); the reader keeps offset <= high and stops at high (READ-RANGE); one poll loop "
-             "(SINGLE-FLIGHT, STOP-CHECK). Crash/restart re-delivery needs C04 downstream plus broker semantics and is not decided.",
+             "(SINGLE-FLIGHT, STOP-CHECK); no finally block of the sources returns / breaks (FINALLY-NO-JUMP: a failed read must not look like a completed batch). Crash/restart re-delivery needs C04 downstream plus broker semantics and is not decided.",
     'note': "Trusted: confluent-kafka call names as used by the code itself; committed offsets are 'next to read'. An unrecognised "
             "spelling of the offset algebra is reported against the normal form, never guessed.",
     'technique': "static analysis: table agreement (writer/reader tuple layout), linear normal forms, who-may-call (commit), "
@@ -26,7 +26,7 @@ META = {
 def run(ctx, R):
     R.explanation = 'Wiring of the batched Kafka source: who may commit, tuple layout agreement, offset normal forms, seeding.'
     R.not_decided = ['crash/restart re-delivery (needs broker semantics)', "get_message_batch's read loop on sparse offsets / timeouts"]
-    declare(R, {**kafka.RULES, **lifecycle.RULES, **flow.RULES, **holds.RULES}, RULES, FLOORS)
+    declare(R, {**kafka.RULES, **lifecycle.RULES, **flow.RULES, **holds.RULES, **failure.RULES}, RULES, FLOORS)
     M = ctx.model
     R.run(kafka.check_autocommit, ctx, R)
     R.run(kafka.check_commit_via_ref, ctx, R)
@@ -34,6 +34,7 @@ def run(ctx, R):
     R.run(kafka.check_offset_algebra, ctx, R)
     R.run(kafka.check_seed, ctx, R)
     R.run(kafka.check_read_range, ctx, R)
+    R.run(failure.check_finally_no_jump, ctx, R, ('streamz.sources',))
     # the commit fires when the batch's counter reaches zero: that is only 'after processing' if _emit never releases on a
     # failure edge and retains all its holds before the first delivery
     R.run(holds.check_emit, ctx, R)
